@@ -175,7 +175,10 @@ def run(cx):
                 letters.append("P")
         return tuple(letters) if letters else None
     spec = {("s0", "P"): "s0", ("s0", "HEAD"): "h", ("h", "P"): "p", ("p", "P"): "p", ("p", "HEAD"): "h"}
-    res = events.check(parse, classify, spec, "s0", {"s0", "h", "p"}, loop_letters={id(mw): "HEAD"})
+    res = events.check(parse, classify, spec, "s0", {"s0", "h", "p"}, loop_letters={id(mw): "HEAD"}, known_tests=events.reference_tests(parse))
+    if not res.violations and res.uncertain:
+        # only along paths through a test on state the event engine does not track: a loss of precision, not a finding
+        raise AnalysisError("R03c", f"{REL}::LLParser.parse", f"progress of the parse loop not decided: the only irregular paths go through a test on untracked state (line {res.uncertain[0][1][-1] if res.uncertain[0][1] else '?'}: {res.uncertain[0][0][:60]})")
     cx.counts["R03c:product states"] = res.states
     if not res.violations:
         cx.ob("R03c", mw, True, f"every iteration of the parse loop performs a progress action before the next one starts ({res.states} product states)", stmt="no stuttering")
